@@ -76,14 +76,13 @@ Definition ex_round : list stmt :=
     SLoop false 0 None 0 3 1 (blk [SLoop true 1 None 0 2 1 (blk [SFutAdd 0 (IxV 0) (AFut 0 (IxV 1)) (Some 5%Z)])]);
     SForeach true 2 0 (blk [SIf CEq false (VFut 0 (IxV 2)) (VInt 1) (blk [SGate GH 0])]);
     SLoopUntil 3 4 (blk [SMeasFut 0 true 0 (IxC 2)]) (VFut 0 (IxC 2)) 0 (blk [SGate GX 0]);
-    SMeasReg 0 true 0;
     SEpr ERecvCorr BNil;
     SEpr (EPost true 2) (blk [SFutAdd 0 (IxC 0) (AInt 1) None]);
     SEpr (ECtx 3) (blk [SIf CGe false (VFut 0 (IxC 0)) (VFut 0 (IxC 1)) (blk [SGate GH 0])]);
     SFlush ].
 
 Definition ex_prog : block :=
-  blk ([SNewArray 0 3 (Some [Some 0%Z; Some 1%Z; Some 2%Z]); SNewQubit 0]
+  blk ([SNewArray 0 3 (Some [Some 0%Z; Some 1%Z; Some 2%Z]); SNewQubit 0; SMeasReg 0 true 0]
        ++ List.concat (repeat ex_round 60)).
 
 Example C14_nonvacuous :
